@@ -35,6 +35,8 @@ def run(ctx: Ctx) -> None:
     _memo.rule_subject_drift(ctx, ['graphiq/solvers/evolutionary_solver.py', 'graphiq/solvers/hybrid_solvers.py'])
     solvers.rule_twoqubit(ctx)
     solvers.rule_emission_first(ctx)
+    from .c12 import rule_validate_shape
+    rule_validate_shape(ctx)  # validate() is the guard every move is followed by
     solvers.rule_move_filters(ctx)
     solvers.rule_frontinsert(ctx)
     shapes.rule_conversion_ops(ctx)
